@@ -18,6 +18,8 @@ Correspondence with the Rust code:
 * `loadRepo`         — the same on the files in the order they are streamed (`stream_all` = `list` + parallel `get_file`,
                        "the result comes in arbitrary order": theorems quantify over every permutation of the listing).
 * `firstError`, `oks` — specification helpers.
+* `IndexFile.supersedes` (Model/Index) is carried by the files that flow through here and read by NONE of these definitions, as in
+  the code (`index?.1.packs` is all the loop uses): a file named in another file's (or its own) list is loaded like any other.
 -/
 import Rustic.Model.Index
 namespace Rustic.IndexLoad
